@@ -88,6 +88,11 @@ CHECKS = {
    text="Classical value = max over all pairs of answer functions for every prob/pred tensor of the enumerated shapes (all entries symbolic), game object unchanged; product and BCS constructors; "
         "for every game of the listed shapes: every deterministic strategy is a feasible point of the real NPA program with its own value (classical <= NPA_k, k in 1,'1+ab',2), higher-level equalities "
         "imply lower-level ones (NPA monotone in k), NPA constraints imply a non-signalling box and nonsignaling_value's program is the LP over such boxes (NPA <= NS <= 1); see-saw programs are the textbook POVM optimisations."),
+ "C17": dict(engine="symnp", category="other", design_ref="DESIGN.md §3 C17", technique=E1 + "; parameter-free constructors executed over exact algebraic numbers (sqrt / roots of unity as symbols with rewriting), float-lifted fallback where the code leaves exact arithmetic",
+   note=NOTE_E1 + "; 'float-lifted' obligations (named in their cfg) compare exact binary rationals of the returned doubles within 1e-9; eigen-certificates use concrete projectors built in the harness",
+   text="Parameterised constructors with symbolic parameters equal their closed forms (Werner scalar and list forms, isotropic, Horodecki, Gisin, Breuer, chessboard, GHZ / W coefficient forms); PPT thresholds of Werner / isotropic / "
+        "Horodecki states by eigen-certificates decided in (non)linear arithmetic; parameter-free constructors, run by the real code over exact algebraic numbers, satisfy their defining identities for every index pair / dimension in the bound "
+        "(Bell / generalised Bell bases, maximally entangled marginals, GHZ / W / Dicke support and symmetry, tile / domino product bases, MUBs, Pauli / Gell-Mann families, Weyl relation, Fourier intertwiner, Hadamard / CNOT / cyclic shift)."),
 }
 NOT_BUILT = "check not built yet in this round (planned per DESIGN.md §3); nothing is claimed"
 NA = {f"C{i:02d}": NOT_BUILT for i in range(1, 21) if f"C{i:02d}" not in CHECKS}
@@ -98,7 +103,7 @@ ENGINES = [
  {"name": "sdpcap", "path": "sdpcap/", "serves_properties": [k for k, v in CHECKS.items() if "sdpcap" in v["engine"]],
   "kind_free_text": "E2: capture of the cvxpy/picos program the real code builds, exact affine extraction on a basis, z3 obligations T1/T2/T3"},
 ]
-NOTES = ("fix: commits in /repo: cb7d15f, 497f2e2 (C01), 03de9a5, c7b010c (C06), b47dfd5 (C10), 897b7c3 (C11), cb4fb7c (C12), 73fd273, 0d7cc36 (C20), fbaafd8 (C13), c89db21, 7c812ba (C14), 4335272, b792854, 75fd335 (C16), b37e413, 80f67c2, 99d5db9 (C18), c68bb85 (C19), 1c22b69 (C07); see known_findings.json 'fixed'. "
+NOTES = ("fix: commits in /repo: cb7d15f, 497f2e2 (C01), 03de9a5, c7b010c (C06), b47dfd5 (C10), 897b7c3 (C11), cb4fb7c (C12), 73fd273, 0d7cc36 (C20), fbaafd8 (C13), c89db21, 7c812ba (C14), 4335272, b792854, 75fd335 (C16), b37e413, 80f67c2, 99d5db9 (C18), c68bb85 (C19), 1c22b69 (C07), 18fb193, 1b8446a, 5eb1a03, 61eccb4 (C17); see known_findings.json 'fixed'. "
          "Exit codes: 0 held / 1 VIOLATION (reproduced on the real code) / 2 harness error.")
 
 checks = []
